@@ -224,35 +224,41 @@ def check(ctx, run):
     conv = prog.fn("getMockValueCFromNamedValue")
     run.analysed(conv)
     pname = conv.params[0]["name"]
-    rows = []
-    for p in enumerate_paths(conv):
-        tag = None
-        for k, v, b, cn in p.decisions:
-            if v and "StrCmp(" in k:
-                m = re.search(r'StrCmp\(%s\.getType\(\)\.asCharString\(\), "([^"]*)"\)' % pname, k)
-                if m and not k.startswith("!"):
-                    # atom key is the call itself; StrCmp(...) == 0 normalises to !StrCmp(...) being true
-                    tag = m.group(1)
-        # a branch taken because StrCmp(...)==0: atom polarity False on the StrCmp key
-        tag = None
-        for k, v, b, cn in p.decisions:
-            m = re.search(r'StrCmp\(%s\.getType\(\)\.asCharString\(\), "([^"]*)"\)' % pname, k)
-            if m and v is False:
-                tag = m.group(1)
-        asg = assignments(conv, p)
-        en = [render(conv, r) for l, r, n in asg if l.endswith(".type")]
-        mem = [(l.split(".")[-1], render(conv, r, keep_explicit_casts=False)) for l, r, n in asg if ".value." in l]
-        rows.append((tag, en, mem, p))
-    got = {}
-    for tag, en, mem, p in rows:
-        got[tag] = (en, mem)
-    for tag, enum, member, getter in UNION:
-        en, mem = got.get(tag, ([], []))
-        ok = en == [enum] and len(mem) == 1 and mem[0][0] == member and ("%s.%s()" % (pname, getter)) in mem[0][1]
-        run.ob("R3", "tag %r" % tag, conv.site, ok, witness={"enum": en, "member": mem, "required": [enum, member, getter]},
-               what="" if ok else "conversion row for tag %r is (%s, %s), expected (%s, %s via %s)" % (tag, en, mem, enum, member, getter))
-    extra = sorted(str(t) for t in got if t not in {u[0] for u in UNION})
-    run.ob("R3", "no unknown tags", conv.site, not extra, witness=extra)
+    enumv = {e["name"]: e["v"] for en in prog.enums.values() for e in en["enumerators"] if e["name"].startswith("MOCKVALUETYPE_")}
+    for g_ in prog.functions.values():      # the C enum is an anonymous typedef: take the enumerator values from their uses
+        if g_.file.endswith("MockSupport_c.cpp"):
+            for n in g_.walk():
+                if n["k"] == "DeclRefExpr" and (n.get("name") or "").startswith("MOCKVALUETYPE_") and "cv" in n:
+                    enumv.setdefault(n["name"], int(n["cv"]))
+    GVAL = {u[3]: 1000 + i for i, u in enumerate(UNION)}
+    GVAL["getBoolValue"] = 1
+
+    def fold_conv(tag):
+        def strcmp(a_, b_):
+            if not (isinstance(a_, tuple) and isinstance(b_, tuple)):
+                return None
+            return (a_[1] > b_[1]) - (a_[1] < b_[1])
+        hooks = string_hooks({"MockNamedValue::getType": lambda *a_: ("str", tag), "SimpleString::StrCmp": strcmp})
+        for g_, v_ in GVAL.items():
+            hooks["MockNamedValue::" + g_] = (lambda *a_, v_=v_: v_)
+        ev = Evaluator(prog, conv, env={pname: 4000}, calls=hooks)
+        ev.pass_object = True
+        ev.run_blocks(conv.entry, max_steps=1500)
+        locs = {}
+        for k, v in ev.env.items():
+            m_ = re.match(r"^\w+\.(type|value\.(\w+))$", k)
+            if m_:
+                locs["type" if m_.group(1) == "type" else m_.group(2)] = v
+        return locs
+    try:
+        for tag, enum, member, getter in UNION:
+            locs = fold_conv(tag if tag is not None else "SomeUserType")
+            vals = {k: v for k, v in locs.items() if k != "type"}
+            ok = locs.get("type") == enumv.get(enum) and vals == {member: GVAL[getter]}
+            run.ob("R3", "tag %r" % tag, conv.site, ok, witness={"folded": {k: str(v) for k, v in locs.items()}, "required": [enum, member, getter]},
+                   what="" if ok else "conversion row for tag %r writes %s, expected type %s and %s from %s()" % (tag, {k: str(v) for k, v in locs.items()}, enum, member, getter))
+    except Unknown as u:
+        run.broke("C19.R3: getMockValueCFromNamedValue cannot be folded: %s" % u)
 
     # ---------------- R4 ----------------------------------------------------
     # the C getters (hasReturnValue_c and the *OrDefault family) ask the C++ support about "the current call": that is the
